@@ -241,6 +241,16 @@ Ltac inv_payload :=
   | reflexivity
   | intros; discriminate ].
 
+(* case split on every integer comparison in sight, whatever way round the source and the model write it; the
+   combinations that contradict each other are discharged by lia *)
+Ltac zconds :=
+  repeat match goal with
+  | |- context [?a <? ?b] => let C := fresh "C" in destruct (a <? b) eqn:C
+  | |- context [?a >? ?b] => let C := fresh "C" in destruct (a >? b) eqn:C
+  | |- context [?a <=? ?b] => let C := fresh "C" in destruct (a <=? b) eqn:C
+  | |- context [?a >=? ?b] => let C := fresh "C" in destruct (a >=? b) eqn:C
+  end.
+
 Ltac pkt_tail IH vES vDATA :=
   wsets; cbn [negb orb];
   let pk := fresh "pk" in
@@ -315,8 +325,7 @@ Proof.
         destruct (write_pes_data a b c e) as [[[?items ?ntot] ?np]|?c0|];
         [ let l := fresh "l" in let E := fresh "E" in let Hbytes := fresh "Hbytes" in
           destruct CD as (l & E & Hbytes); rewrite E; wsimpl; rewrite Hbytes; specialize (BD _ _ _ eq_refl);
-          match goal with |- context [if ?c then _ else _] => let CR := fresh "CR" in destruct c eqn:CR end; wsimpl;
-          pkt_tail IH vES vDATA; inv_payload
+          zconds; wsimpl; first [ exfalso; lia | pkt_tail IH vES vDATA; inv_payload ]
         | let l := fresh "l" in let a0 := fresh "a" in let b0 := fresh "b" in let e := fresh "e" in
           let E := fresh "E" in let He := fresh "He" in
           destruct CD as (l & a0 & b0 & e & E & He); rewrite E; wsimpl; rewrite (werr_not_nil _ _ He); wsimpl;
@@ -329,7 +338,7 @@ Proof.
       destruct ps; wsimpl.
       * rewrite ?Hpes; wsimpl; rewrite ?Hhd; wsimpl; rewrite ?HOH; cbn [andb].
         cbn [wset_Packet_AdaptationField wset_Packet_Header wset_PacketHeader_HasAdaptationField Packet_AdaptationField Packet_Header].
-        match goal with |- context [if ?c then _ else _] => destruct c eqn:CA end; wsimpl.
+        zconds; wsimpl; try (exfalso; lia).
         -- afonly IH constr:(es) constr:(data).
         -- payload IH constr:(es) constr:(data) Hpes Hhd Hdata Ies Hfill Hb Hleft.
       * cbn [andb]. payload IH constr:(es) constr:(data) Hpes Hhd Hdata Ies Hfill Hb Hleft.
@@ -337,7 +346,7 @@ Proof.
       destruct ps; wsimpl.
       * rewrite ?Hpes; wsimpl; rewrite ?Hhd; wsimpl; rewrite ?HOH; cbn [andb].
         cbn [wset_Packet_AdaptationField wset_Packet_Header wset_PacketHeader_HasAdaptationField Packet_AdaptationField Packet_Header].
-        match goal with |- context [if ?c then _ else _] => destruct c eqn:CA end; wsimpl.
+        zconds; wsimpl; try (exfalso; lia).
         -- afonly IH constr:(es) constr:(data).
         -- payload IH constr:(es) constr:(data) Hpes Hhd Hdata Ies Hfill Hb Hleft.
       * cbn [andb]. payload IH constr:(es) constr:(data) Hpes Hhd Hdata Ies Hfill Hb Hleft.
